@@ -1512,9 +1512,22 @@ impl AstNode for ChainSpecificBlock {
 /// use tx3_lang::parsing::parse_string;
 /// let program = parse_string("tx swap() {}").unwrap();
 /// ```
+impl Error {
+    /// Attach the text the span offsets refer to, so the label can be rendered against it.
+    fn with_source(self, src: &str) -> Self {
+        Self {
+            src: src.to_string(),
+            ..self
+        }
+    }
+}
+
 pub fn parse_string(input: &str) -> Result<Program, Error> {
-    let pairs = Tx3Grammar::parse(Rule::program, input)?;
-    Program::parse(pairs.into_iter().next().unwrap())
+    // spans are byte offsets into `input`, so `input` is the source the diagnostic has to carry
+    let pairs = Tx3Grammar::parse(Rule::program, input)
+        .map_err(|e| Error::from(e).with_source(input))?;
+
+    Program::parse(pairs.into_iter().next().unwrap()).map_err(|e| e.with_source(input))
 }
 
 #[cfg(test)]
